@@ -61,6 +61,12 @@ def unmarshal(data_in: bytes) -> typing.Tuple[int, int, FrameTypes]:
 
     # Heartbeats do not have frame length indicators
     if frame_type == constants.FRAME_HEARTBEAT and frame_size == 0:
+        if len(data_in) <= constants.FRAME_HEADER_SIZE:
+            raise exceptions.UnmarshalingException('Heartbeat',
+                                                   'Not all data received')
+        if data_in[constants.FRAME_HEADER_SIZE] != constants.FRAME_END:
+            raise exceptions.UnmarshalingException('Heartbeat',
+                                                   'Last byte error')
         return 8, channel_id, heartbeat.Heartbeat()
 
     if not frame_size:
